@@ -66,6 +66,14 @@ USER_FUNCS = {
     "u_sec": "u_sec := (_ - _)",
     "u_on": "u_on := max on abs",
     "u_fan": "u_fan := + &&& -",
+    # parameter forms that assign_all treats specially (annotations wrap the splat / the default; a
+    # destructuring parameter; type-checked parameters): every application form binds them alike
+    "u_ann": "u_ann := \\a: int, b -> [a, b]",
+    "u_annsp": "u_annsp := \\a, ...bs: list -> [a, bs]",
+    "u_spann": "u_spann := \\...as: list, b -> [as, b]",
+    "u_pat": "u_pat := \\(a, b), c -> [a, b, c]",
+    "u_defann": "u_defann := \\a, b: int = 5 -> [a, b]",
+    "u_sat": "u_sat := \\a, b: satisfying(\\x -> x != 0) -> [a, b]",
 }
 
 
